@@ -147,15 +147,9 @@ pub fn liveness_violations(
         vs.push(Violation::new(f.class(), op_name, input_class, f.message().to_string()).at(ci, log));
     }
     if log.worker_after_return {
-        vs.push(
-            Violation::new(
-                "worker_outlived_call",
-                op_name,
-                input_class,
-                "a worker task was still runnable after the operation returned".into(),
-            )
-            .at(ci, log),
-        );
+        // Not a violation of any property by itself (a result cannot depend on a thread that shares nothing
+        // with it, and a design with long-lived workers is legitimate): counted, so that it is visible.
+        st.bump("note/worker_still_runnable_after_return");
     }
     if log.trace_diverged {
         st.bump("harness/trace_diverged");
